@@ -79,6 +79,13 @@ def resize_rule(ctx, facts, cfg, rid):
             lo, hi = C.bounds(shift)
             grow = lo is not None and lo >= 1
             shrink = hi is not None and hi <= -1
+            if not (grow or shrink) and hi is not None and hi <= 0:
+                # a plain `else` behind `if shift > 0` (zero was sent back at the top, which a convex state cannot remember): the
+                # facts are evaluated for the amounts that actually remove bytes
+                C2 = C.copy()
+                C2.add(le(shift, -1))
+                if not C2.infeasible():
+                    C, shrink = C2, True
             if not (grow or shrink):
                 continue
             name = p['callee'].split('::')[-1]
@@ -204,9 +211,15 @@ def _closure_of_map(f, defs, s):
             t = d[1]
             if not (F.call_path(t) or '').endswith('Option::<T>::map') or len(t['args']) < 2:
                 return None
-            cd = defs.get(F.op_local(t['args'][1]))
-            if cd and cd[0] == 'rv' and cd[1]['k'] == 'aggregate' and cd[1].get('agg') == 'closure':
-                return cd[1].get('def'), cd[1]['ops']
+            cl = F.op_local(t['args'][1])
+            for _ in range(6):       # the closure may be a named local handed over by copy (`let shifted = |x| ..; a.map(shifted)`)
+                cd = defs.get(cl) if cl is not None else None
+                if cd and cd[0] == 'rv' and cd[1]['k'] == 'aggregate' and cd[1].get('agg') == 'closure':
+                    return cd[1].get('def'), cd[1]['ops']
+                if cd and cd[0] == 'rv' and cd[1]['k'] == 'use':
+                    cl = F.op_local(cd[1]['x'])
+                    continue
+                break
             return None
         if d[0] == 'rv' and d[1]['k'] == 'use':
             l = F.op_local(d[1]['x'])
@@ -215,17 +228,44 @@ def _closure_of_map(f, defs, s):
     return None
 
 
+def _capture_types(f):
+    cap_ty = {}
+    def scan(o):
+        if isinstance(o, dict):
+            if o.get('local') == 1 and o.get('proj') and 'ty' in o:
+                pj = o['proj']
+                if len(pj) == 1 and pj[0].get('k') == 'field':
+                    cap_ty[pj[0]['i']] = o['ty']            # closure taken by value (FnOnce)
+                elif len(pj) == 2 and pj[0].get('k') == 'deref' and pj[1].get('k') == 'field':
+                    cap_ty[pj[1]['i']] = o['ty']            # closure called through a reference (Fn / FnMut)
+            for v in o.values():
+                scan(v)
+        elif isinstance(o, list):
+            for v in o:
+                scan(v)
+    scan(f['blocks'])
+    return cap_ty
+
+
 def _analyse_closure(facts, key, ncap_kinds):
-    """Run E4 on a shift closure with bounded captures/argument; returns (x, captures, [(C, ret)]) or raises."""
+    """Run E4 on a shift closure with bounded captures/argument; returns (x, captures, [(C, ret)]) or raises.
+    ncap_kinds: the number of captures, or the list of their kinds (a captured closure is ('closure', [kinds of its captures]))."""
     from analysis.interp import State, Ref
+    ncap_kinds_list = ncap_kinds if isinstance(ncap_kinds, list) else None
+    if ncap_kinds_list is not None:
+        ncap_kinds = len(ncap_kinds_list)
+    nested = {}
     f = facts.fns[key]
     # capture types from the places `_1.i` read in the body
     cap_ty = {}
     def scan(o):
         if isinstance(o, dict):
-            if o.get('local') == 1 and o.get('proj') and o['proj'][0].get('k') == 'field' and 'ty' in o:
-                if len(o['proj']) == 1:
-                    cap_ty[o['proj'][0]['i']] = o['ty']
+            if o.get('local') == 1 and o.get('proj') and 'ty' in o:
+                pj = o['proj']
+                if len(pj) == 1 and pj[0].get('k') == 'field':
+                    cap_ty[pj[0]['i']] = o['ty']            # closure taken by value (FnOnce)
+                elif len(pj) == 2 and pj[0].get('k') == 'deref' and pj[1].get('k') == 'field':
+                    cap_ty[pj[1]['i']] = o['ty']            # closure called through a reference (Fn / FnMut)
             for v in o.values():
                 scan(v)
         elif isinstance(o, list):
@@ -243,6 +283,39 @@ def _analyse_closure(facts, key, ncap_kinds):
         if ty is None:
             continue
         ity = ty['to'] if ty.get('k') == 'ref' else ty
+        if ity.get('k') == 'closure' and ity.get('def') in facts.fns and isinstance(ncap_kinds_list, list) and i < len(ncap_kinds_list) \
+                and isinstance(ncap_kinds_list[i], tuple) and ncap_kinds_list[i][0] == 'closure':
+            # a captured closure (`let shifted = |x| ..` used inside this one): its own captures become symbols of this analysis
+            sub_fields = {}
+            sub_caps = {}
+            sub_ty = _capture_types(facts.fns[ity['def']])
+            for j, sk in enumerate(ncap_kinds_list[i][1]):
+                sty = sub_ty.get(j)
+                if sty is None:
+                    continue
+                sity = sty['to'] if sty.get('k') == 'ref' else sty
+                if sity.get('k') != 'int':
+                    raise ValueError('capture %d.%d of %s is not an integer' % (i, j, key))
+                sv = st.fresh_int(sity, 'cap%d_%d' % (i, j))
+                st.C.add(le(sv.e, BOUND))
+                st.C.add(ge(sv.e, -BOUND if sity.get('signed') else 0))
+                sub_caps[j] = (sv.e, sity)
+                if sty.get('k') == 'ref':
+                    cell = 'CAP%d_%d:%s' % (i, j, key)
+                    st.mem[cell] = sv
+                    st.mem[cell + '#ty'] = sity
+                    sub_fields[(0, j)] = Ref(cell)
+                else:
+                    sub_fields[(0, j)] = sv
+            env2 = Enum('(closure)' + ity['def'], 0, sub_fields)
+            nested[i] = sub_caps
+            if ty.get('k') == 'ref':
+                cell = 'CAPENV%d:%s' % (i, key)
+                st.mem[cell] = env2
+                fields[(0, i)] = Ref(cell)
+            else:
+                fields[(0, i)] = env2
+            continue
         if ity.get('k') != 'int':
             raise ValueError('capture %d of %s is not an integer' % (i, key))
         v = st.fresh_int(ity, 'cap%d' % i)
@@ -262,7 +335,15 @@ def _analyse_closure(facts, key, ncap_kinds):
         ty = cap_ty[i]
         if (ty['to'] if ty.get('k') == 'ref' else ty).get('signed'):
             st.C.add(ge(x.e + c, 0))   # stated: a (negative) splice amount never moves an offset below zero
+    for i, sub in nested.items():
+        for j, (e_, sity) in sub.items():
+            if sity.get('signed'):
+                st.C.add(ge(x.e + e_, 0))
+            caps[(i, j)] = e_
     env = Enum('(closure)' + key, 0, fields)
+    if f['locals'][1].get('k') == 'ref':
+        st.mem['ENV:' + key] = env
+        env = Ref('ENV:' + key)
     rets = an.analyze(key, [env, x], st)
     return x.e, caps, [(s.C, v) for s, v in rets], e4
 
@@ -306,15 +387,24 @@ def _classify_captures(facts, key, ckeys, insert):
         for i in range(len(cl.fields)):
             fv = cl.fields.get((0, i))
             v = p['mem'].get(fv.loc) if isinstance(fv, Ref) else fv
-            kind = 'other'
-            if isinstance(v, Int):
-                if amount is not None and p['C'].bounds(v.e - amount) == (0, 0):
-                    kind = 'amount'
-                elif any(p['C'].bounds(v.e - c) == (0, 0) for c in cursors):
-                    kind = 'cursor'
-            kinds.append(kind)
+            def _kind_of(v_):
+                if isinstance(v_, Int):
+                    if amount is not None and p['C'].bounds(v_.e - amount) == (0, 0):
+                        return 'amount'
+                    if any(p['C'].bounds(v_.e - c) == (0, 0) for c in cursors):
+                        return 'cursor'
+                return 'other'
+            if isinstance(v, Enum) and v.adt.startswith('(closure)'):
+                sub = []
+                for j in range(len(v.fields)):
+                    fv2 = v.fields.get((0, j))
+                    v2 = p['mem'].get(fv2.loc) if isinstance(fv2, Ref) else fv2
+                    sub.append(_kind_of(v2))
+                kinds.append(('closure', sub))
+                continue
+            kinds.append(_kind_of(v))
         prev = out.get(ck)
-        out[ck] = kinds if prev is None else [a if a == b else 'other' for a, b in zip(prev, kinds)]
+        out[ck] = kinds if prev is None else [a if a == b else (a if isinstance(a, tuple) and isinstance(b, tuple) and a[0] == b[0] else 'other') for a, b in zip(prev, kinds)]
     return out, amount is not None
 
 
@@ -361,12 +451,16 @@ def shift_closure_rule(ctx, facts, cfg, rid):
                     ctx.violation(rid, key, 'undecided:' + field, 'the closure shifting %s in %s was not reached by the analysis of %s' % (field, fn_short, fn_short), kind='undecided', config=cfg)
                     continue
                 try:
-                    x, caps, cases, e4 = _analyse_closure(facts, ckey, len(kinds))
+                    x, caps, cases, e4 = _analyse_closure(facts, ckey, list(kinds))
                 except Exception as e:  # noqa
                     ctx.violation(rid, key, 'undecided:' + field, 'cannot analyse the closure shifting %s in %s: %s' % (field, fn_short, e), kind='undecided', config=cfg)
                     continue
                 amounts = [caps[i] for i, k in enumerate(kinds) if k == 'amount' and i in caps]
                 cursors = [caps[i] for i, k in enumerate(kinds) if k == 'cursor' and i in caps]
+                for i, k in enumerate(kinds):
+                    if isinstance(k, tuple) and k[0] == 'closure':
+                        amounts += [caps[(i, j)] for j, kk in enumerate(k[1]) if kk == 'amount' and (i, j) in caps]
+                        cursors += [caps[(i, j)] for j, kk in enumerate(k[1]) if kk == 'cursor' and (i, j) in caps]
                 problems = []
                 saw_identity = saw_shift = False
                 for C, v in cases:
@@ -412,5 +506,12 @@ def shift_closure_rule(ctx, facts, cfg, rid):
             for need in ('offset_answers', 'offset_nameservers', 'offset_additional', 'offset_edns'):
                 if need not in got:
                     ctx.violation(rid, key, need + ':never-shifted', 'resize_rr has no statement that shifts %s: after a splice in front of it the recorded position is stale' % need, config=cfg)
+    if n < 13:
+        # the bookkeeping of insert_rr written without `map(closure)` statements: the same facts from its E4 summary
+        from rules import offsets
+        tab, why_ = offsets.insert_table(facts)
+        if tab is not None and all(v[0] for v in tab.values()):
+            ctx.instance(rid, 'insert_rr: section offsets decided from the E4 summary for all four sections (later sections and the OPT area move by the inserted length, earlier ones stay)', ok=True)
+            n = max(n, 13) if n >= 4 else n
     if n < 13:
         ctx.violation(rid, '<floor>', 'shift closures', 'found %d offset-shifting closures in resize_rr/insert_rr, expected 13 (4 + 9)' % n, kind='below-floor')
